@@ -10,6 +10,10 @@ open Proto Livetime
       drawwin <edges> <tmin|N> <tmax|N> <u>
       subset  <edges> <times> <t0> <t1>  -> <mask> <flat> <livetime> | ERR
       integ   <edges>
+      clip    <starts> <stops>           -> clipped starts
+      grl     <starts> <stops>           -> flat edges held by I3Livetime.from_grl_data | ERR
+      grlclip <starts> <stops>           -> the same after clip_grl_start_times
+      gentime <edges> <tmin|N> <tmax|N> <u>
 -/
 def pairs (s : String) : List (Float × Float) := unflat (pList pF s)
 
@@ -39,6 +43,17 @@ def answer (line : String) : String :=
       | some (m, r, lt) => s!"{fListD fB m} {fListD fF (flat r)} {fF lt}"
       | none => "ERR"
   | ["integ", es] => fB (integrity (pList pF es))
+  | ["clip", ss, es] => fListD fF ((clipStarts ((pList pF ss).zip (pList pF es))).map Prod.fst)
+  | ["grl", ss, es] => match fromGrl (pList pF ss) (pList pF es) with
+      | some r => fListD fF (flat r)
+      | none => "ERR"
+  | ["grlclip", ss, es] => match grlLivetime ((pList pF ss).zip (pList pF es)) with
+      | some r => fListD fF (flat r)
+      | none => "ERR"
+  | ["gentime", es, tmin, tmax, u] =>
+      match generateTime (pairs es) (pOpt tmin) (pOpt tmax) (pF u) with
+      | some x => fF x
+      | none => "ERR"
   | _ => "bad-op"
 
 def main : IO Unit := do loop (← IO.getStdin) answer
